@@ -9,8 +9,8 @@ CLAIMED = {
    tech="contract-based typestate verification (ghost state + call hooks) against an assumed dependency contract, SMT",
    ref="DESIGN.md §4 C05"),
  "C01": dict(
-   text="Proof (unbounded over histories, by per-operation contracts) of the entry-point clauses: Insert, Remove and Load keep 'a non-nil entry point is never a tombstone' and 'the entry point is nil only if nothing is stored' (anyVertex returns a stored vertex or nil exactly on an empty index), a successful Insert leaves an entry point; and of the search-path clauses: the greedy descent moves only to neighbours that are not tombstones and carries the true distance, Search hands a live vertex to the beam search, every item that enters the beam (searchLevel, heuristic selection) is created with exactly Distance(space, query, its vector) and is not a tombstone at that moment; searchLevel returns a queue ALL of whose items are such beam items, and with the simple selection mode every entry of Search's result is (id, metadata, Distance(space, query, vector)) of one allocated, non-tombstoned vertex - 'what is popped was pushed' comes from an uninterpreted item predicate that every queue contract (C19) carries through Push/Pop/heapify; Search returns at most k items, one per beam item, never (nil, nil), and (simple selection, k >= 1, entry point present, item counter >= 1) at least one item; the merge across partitions is ascending and at most k (shared with C09). PLUS a BOUNDED stand-in, labelled as such and not counted as proved, for what depends on the beam's contents (returned items are stored with current metadata and true score, ascending, unique, non-empty answers): exhaustive histories up to 4 (thorough 5) operations and randomised large histories around the entry point.",
-   note="Not proved (bounded only): uniqueness of ids, ascending order inside one index, and the result-content and non-empty clauses for the heuristic selection mode; the non-empty clause takes 'entry point present implies item counter >= 1' as a precondition (inductive from C02's counter exactness and the entry-point invariants, not one machine-checked theorem); the content proof assumes the heap-order preconditions of the queue operations at the index's call sites (well-formed heap, non-NaN and non-negative distances), which are generated as obligations but not claimed; 'not a tombstone' is proved, 'currently stored' needs the graph invariant (a linked, non-tombstoned vertex is stored) which is not under contract; panic-freedom of the graph code is unclaimed; the entry-point invariants are inductive over operations (NewHnsw starts with nil entry point and empty shards - by inspection), not re-checked at call sites; sequential semantics; NaN scores excluded by the float-order assumption.",
+   text="Proof (unbounded over histories, by per-operation contracts) of the entry-point clauses: Insert, Remove and Load keep 'a non-nil entry point is never a tombstone' and 'the entry point is nil only if nothing is stored' (anyVertex returns a stored vertex or nil exactly on an empty index), a successful Insert leaves an entry point; and of the search-path clauses: the greedy descent moves only to neighbours that are not tombstones and carries the true distance, Search hands a live vertex to the beam search, every item that enters the beam (searchLevel, heuristic selection) is created with exactly Distance(space, query, its vector) and is not a tombstone at that moment; searchLevel returns a queue ALL of whose items are such beam items, both selection modes (simple and heuristic) return only such items, and every entry of Search's result is (id, metadata, Distance(space, query, vector)) of one allocated, non-tombstoned vertex - 'what is popped was pushed' comes from an uninterpreted item predicate that every queue contract (C19) carries through Push/Pop/heapify; Search returns at most k items, one per beam item, never (nil, nil), and (simple selection, k >= 1, entry point present, item counter >= 1) at least one item; the merge across partitions is ascending and at most k (shared with C09). PLUS a BOUNDED stand-in, labelled as such and not counted as proved, for what depends on the beam's contents (returned items are stored with current metadata and true score, ascending, unique, non-empty answers): exhaustive histories up to 4 (thorough 5) operations and randomised large histories around the entry point.",
+   note="Not proved (bounded only): uniqueness of ids, ascending order inside one index, and the non-empty clause for the heuristic selection mode; the non-empty clause takes 'entry point present implies item counter >= 1' as a precondition (inductive from C02's counter exactness and the entry-point invariants, not one machine-checked theorem); the content proof assumes the heap-order preconditions of the queue operations at the index's call sites (well-formed heap, non-NaN and non-negative distances), which are generated as obligations but not claimed; 'not a tombstone' is proved, 'currently stored' needs the graph invariant (a linked, non-tombstoned vertex is stored) which is not under contract; panic-freedom of the graph code is unclaimed; the entry-point invariants are inductive over operations (NewHnsw starts with nil entry point and empty shards - by inspection), not re-checked at call sites; sequential semantics; NaN scores excluded by the float-order assumption.",
    tech="contract-based deductive verification (entry-point invariants, call hooks on beam item creation, loop invariants over map iteration) + a labelled bounded stand-in for beam-content clauses",
    ref="DESIGN.md §4 C01"),
  "C06": dict(
